@@ -422,6 +422,8 @@ def run_history(R, steps):
 
 def run(R):
     n = N_CASES[R.tier]
+    if R.shard == 1 % R.nshards:
+        many_blocks(R)
     for i in range(n):
         if not R.mine(i):
             continue
@@ -432,7 +434,53 @@ def run(R):
         run_history(R, steps)
 
 
+def many_blocks(R):
+    """A poller wraps every request in its own reconfigure() block, hundreds of times on
+    one client, many of them left by an exception: block number 300 still applies its
+    override and is still undone."""
+    from puresnmp import Client
+    from puresnmp.credentials import V2C
+
+    calls = []
+
+    async def sender(endpoint, packet, timeout=None, retries=None, loop=None):
+        calls.append((timeout, retries))
+        m = ber.decode_message(packet)
+        pdu = m["pdu"]
+        resp = {"type": ber.PDU_RESPONSE, "request_id": pdu["request_id"], "error_status": 0, "error_index": 0, "varbinds": [(o, ("int", 1)) for o, _ in pdu["varbinds"]]}
+        return ber.enc_community_message(m["version"], m["community"], resp)
+
+    client = Client("192.0.2.1", V2C("public"), sender=sender)
+    base = client.config
+    for j in range(320):
+        del calls[:]
+        kind = j % 3
+        try:
+            with client.reconfigure(timeout=2 + j % 5, retries=1 + j % 3):
+                rig.drive(client.get(OID((1, 3, 6, 1, 2, 1, 1, 1, 0))))
+                if kind == 1:
+                    raise Boom()
+                if kind == 2:
+                    raise BoomBase()
+        except (Boom, BoomBase):
+            pass
+        except Exception as exc:  # noqa: BLE001
+            R.violation({"history": "many-blocks", "block": j}, "block number %d on one client could not even be entered / used: %r" % (j, exc), None)
+            return
+        R.evaluations += 1
+        if calls != [(2 + j % 5, 1 + j % 3)]:
+            R.violation({"history": "many-blocks", "block": j}, "block number %d: the transport saw %r, the override says %r" % (j, calls, (2 + j % 5, 1 + j % 3)), None)
+            return
+        if client.config != base:
+            R.violation({"history": "many-blocks", "block": j}, "after block number %d the configuration is %r, before the first it was %r" % (j, client.config, base), None)
+            return
+    R.mon["many_blocks_histories"] += 1
+
+
 def replay(R, v):
+    if v["case"].get("history") == "many-blocks":
+        many_blocks(R)
+        return
     def de(steps):
         out = []
         for s in steps:
